@@ -10,6 +10,7 @@ pub mod c09;
 pub mod c10;
 pub mod c11;
 pub mod c12;
+pub mod c15;
 
 use crate::Ctx;
 use serde_json::Value;
@@ -28,6 +29,7 @@ pub fn run(id: &str, ctx: &Ctx) -> i32 {
         "C10" => c10::run(ctx),
         "C11" => c11::run(ctx),
         "C12" => c12::run(ctx),
+        "C15" => c15::run(ctx),
         _ => {
             eprintln!("unknown property {}", id);
             2
@@ -49,6 +51,7 @@ pub fn replay(id: &str, ctx: &Ctx, v: &Value) -> i32 {
         "C10" => c10::replay(ctx, v),
         "C11" => c11::replay(ctx, v),
         "C12" => c12::replay(ctx, v),
+        "C15" => c15::replay(ctx, v),
         _ => {
             eprintln!("unknown property {}", id);
             2
